@@ -150,6 +150,7 @@ def g_init(draw):
     c["floor"] = gen.choice(draw, [EPS, 1e-3 * c["scale"] ** 2, 10.0 * c["scale"] ** 2])
     c["dask"] = gen.boolean(draw)
     c["chunks"] = gen.composition(draw, c["X"].shape[0], max_parts=5)
+    c["trainer_used_before"] = gen.choice(draw, [False, False, True])
     return c
 
 
@@ -176,7 +177,11 @@ def c_init(ctx, case):
     if np.isnan(v).any():
         ctx.discard("empty cluster (C13's domain)")
     kv, kw = ref_km.get_variances_and_weights_for_each_cluster(data)
-    g = GMMMachine(k, max_fitting_steps=0, k_means_trainer=km(), mean_var_update_threshold=case["floor"])
+    trainer = km()
+    if case.get("trainer_used_before"):
+        # the same trainer object already initialised another GMM on other data
+        GMMMachine(k, max_fitting_steps=0, k_means_trainer=trainer).fit(X[::-1] * 1.5 + 1.0)
+    g = GMMMachine(k, max_fitting_steps=0, k_means_trainer=trainer, mean_var_update_threshold=case["floor"])
     g.fit(data)
     floored = bool((np.asarray(kv) < case["floor"]).any())
     ctx.note(k >= 2, "dask" if case["dask"] else "numpy", "floor-active" if floored else "floor-inactive",
